@@ -24,7 +24,7 @@ RULE = (
     " 64-byte proof, proof of a wrong-code accessory, proof absent; M6 with single-bit flips of EncryptedData (every byte,"
     " stride through bits; exhaustive in thorough), encrypted under another key / nonce label, signed by another key or"
     " over another id/key/permuted transcript, each inner field removed, plaintext truncated at each TLV boundary, outer"
-    " stream truncated; identifier presented in another letter case than the signed one; EVERY step answered with an error code (0x00..0x08, 0x80, 0xFF, empty) next to otherwise valid fields, with and without State, or alone. Accessory identifiers include lower/mixed-case and non-ASCII ones. Distinct by (exchange parameters, mutation); non-trivial = all."
+    " stream truncated; identifier presented in another letter case than the signed one; a second Identifier / PublicKey item before or after the signed ones; State item of M2/M4/M6 altered to every other value, EMPTY or over-long; EVERY step answered with an error code (0x00..0x08, 0x80, 0xFF, empty) next to otherwise valid fields, with and without State, or alone. Accessory identifiers include lower/mixed-case and non-ASCII ones. Distinct by (exchange parameters, mutation); non-trivial = all."
 )
 ASSUMPTIONS = [
     "conformant accessory as in C02 (padding convention) and HAP spec 5.6 labels",
@@ -255,6 +255,18 @@ def mutation(name, arg, rng):
             return _drop(items, 6) + [(7, bytes([arg]) if arg >= 0 else b"")]
         if kind == "error_only":
             return [items[0], (7, bytes([arg]) if arg >= 0 else b"")]
+        if kind == "wrong_state":
+            # the State item altered in flight: another step number (arg 0..7, 255), EMPTY (arg -1) or over-long (arg -2)
+            exp = {"M2": 2, "M4": 4, "M6": 6}[st]
+            val = b"" if arg == -1 else bytes([exp, 0]) if arg == -2 else bytes([arg])
+            return _replace(items, 6, lambda v: val)
+        if kind == "dup_inner":
+            # a second, non-adjacent Identifier / PublicKey item inside the M6 sub-TLV (before or after the signed ones): which
+            # ever copy the controller reads, the record must never hold a value the signature does not cover
+            sub = acc.m6_subtlv()
+            extra = [(1, b"11:22:33:44:55:66"), (3, refpv.raw_pub(other_key)), (1, acc.pairing_id.swapcase() if acc.pairing_id.swapcase() != acc.pairing_id else acc.pairing_id + b"x")][arg % 3]
+            # arg 0..2: the extra item AFTER the signature; 3..5: BEFORE everything (signature moved up between them)
+            return acc.m6(sub + [extra] if arg < 3 else [extra, sub[2]] + sub[:2])
         if kind == "sig_permuted":
             sig = acc.ltsk.sign(acc.pairing_id + acc.accessory_x() + acc.ltpk)
             return acc.m6(acc.m6_subtlv(signature=sig))
@@ -307,6 +319,8 @@ def adversarial_plan(ctx):
         + [("M4:outer_truncated", i) for i in (0, 1, 30)]
         + [("M2:outer_truncated", i) for i in (0, 1, 17, 18, 200)]
         + [("M6:id_case_variant", i) for i in range(4)]
+        + [("M6:dup_inner", i) for i in range(6)]
+        + [(f"{st}:wrong_state", v) for st, exp in (("M2", 2), ("M4", 4), ("M6", 6)) for v in (-1, -2, 0, 1, 2, 3, 4, 5, 6, 7, 255) if v != exp]
     )
     err_codes = (0, 1, 2, 3, 4, 5, 6, 7, 8, 0x80, 255, -1)
     errors = [(f"{st}:{kind}", c) for st in ("M2", "M4", "M6") for kind in ("error_with_fields", "error_with_fields_first", "error_with_fields_no_state", "error_only") for c in err_codes]
@@ -330,6 +344,14 @@ def check_adversarial(ctx, name, arg, k, j) -> None:
         ctx.count("m4_proof_flips")
     if name.startswith("M6:flip_cipher"):
         ctx.count("m6_cipher_flips")
+    if name == "M6:dup_inner" and out.returned and out.exc is None and isinstance(out.value, dict):
+        # the signed items are all present; whichever copy the controller read, the record must hold what the signature covers
+        rec = out.value
+        if rec.get("AccessoryPairingID") != acc.pairing_id.decode() or rec.get("AccessoryLTPK") != acc.ltpk.hex():
+            ctx.violation("record-holds-value-the-signature-does-not-cover", f"M6 sub-TLV with a second Identifier/PublicKey item ({arg}): record id={rec.get('AccessoryPairingID')!r}", replay)
+        else:
+            ctx.count("duplicate_inner_item_tolerated_with_authentic_record")
+        return
     if out.returned and out.exc is None and out.value is not None and out.stage in ("M6", "M4", "M2", "M3"):
         # part1 legitimately "returns" (salt, key) after an unmutated M2: only a returned record is a violation,
         # or part1 returning although salt/key was removed
